@@ -75,12 +75,13 @@ def wtag(k, j, a):
     return 100 * k + 10 * j + a
 
 
-def n_waves(p, a):
-    return p['nw'] if a == 0 else max(p['nw'] - 1, 0)
+def n_waves(p, a, k=0):
+    """ragged: which antenna has one waveform less alternates with the add number"""
+    return p['nw'] if a == (k % N_ANT) else max(p['nw'] - 1, 0)
 
 
-def n_rays(p, a):
-    return p['nr'] if a == 0 else max(p['nr'] - 1, 0)
+def n_rays(p, a, k=0):
+    return p['nr'] if a == ((k + 1) % N_ANT) else max(p['nr'] - 1, 0)
 
 
 def foo_list(k, n):
@@ -130,7 +131,7 @@ def expected_event(c, k, p):
             names = set()
             if gate(c, 'antenna_triggers', p):
                 for a in range(N_ANT):
-                    if j < n_waves(p, a) and wtag(k, j, a) % 2 == 1:
+                    if j < n_waves(p, a, k) and wtag(k, j, a) % 2 == 1:
                         names.add('antenna_%d' % a)
             if p['form'] == 'dictx' and k % 2 == 0:
                 names.add('foo')
@@ -141,12 +142,12 @@ def expected_event(c, k, p):
     else:
         e['components'] = None
     if gate(c, 'rays', p):
-        e['rays'] = [[float(wtag(k, j, a)) if j < n_rays(p, a) else 0.0 for a in range(N_ANT)] for j in range(p['nr'])]
+        e['rays'] = [[float(wtag(k, j, a)) if j < n_rays(p, a, k) else 0.0 for a in range(N_ANT)] for j in range(p['nr'])]
     else:
         e['rays'] = None
     e['noise'] = [[float(k), float(a), 7.0] for a in range(N_ANT)] if gate(c, 'noise', p) else None
     if gate(c, 'waveforms', p):
-        e['waveforms'] = [[float(wtag(k, j, a)) if j < n_waves(p, a) else None for a in range(N_ANT)]
+        e['waveforms'] = [[float(wtag(k, j, a)) if j < n_waves(p, a, k) else None for a in range(N_ANT)]
                           for j in range(p['nw'])]
     else:
         e['waveforms'] = None
@@ -307,7 +308,7 @@ class H5Driver:
         for a, ant in enumerate(self.det):
             ant.clear()
             ant._noise_master = NoiseStub(k, a)
-            for j in range(n_waves(p, a)):
+            for j in range(n_waves(p, a, k)):
                 t = np.arange(4) * 1e-9 + j * 1e-6
                 ant.signals.append(pyrex.Signal(t, [float(wtag(k, j, a)), 1.0, -1.0, 0.5]))
         form = p['form']
@@ -319,8 +320,8 @@ class H5Driver:
         if p['rays'] == 'none':
             paths, pols = None, None
         else:
-            paths = [[PathStub(wtag(k, j, a)) for j in range(n_rays(p, a))] for a in range(N_ANT)]
-            pols = [[(0.0, 0.8, 0.6) for j in range(n_rays(p, a))] for a in range(N_ANT)]
+            paths = [[PathStub(wtag(k, j, a)) for j in range(n_rays(p, a, k))] for a in range(N_ANT)]
+            pols = [[(0.0, 0.8, 0.6) for j in range(n_rays(p, a, k))] for a in range(N_ANT)]
             if p['rays'] == 'badshape':
                 pols = pols[:-1]
         raised = None
